@@ -123,7 +123,7 @@ pub fn dhw_case(max_steps: usize) -> BoxedStrategy<DhwCase> {
                     proptest::option::weighted(0.3, cogen(n)),
                 ),
                 // long series: about one case in 40 is tiled to 365 or 8 760 steps
-                prop_oneof![78 => Just(0usize), 1 => Just(365usize), 1 => Just(8760usize)],
+                if crate::common::is_thorough() { prop_oneof![398 => Just(0usize), 1 => Just(365usize), 1 => Just(8760usize)].boxed() } else { prop_oneof![78 => Just(0usize), 1 => Just(365usize), 1 => Just(8760usize)].boxed() },
             )
         })
         .prop_map(|((n, suppliers, aux, pv, other_el, other_nonel, nepb), (red1, red2, loc, k, lm, demand, split_demand, cogen), long)| {
@@ -208,7 +208,10 @@ impl DhwCase {
             match s {
                 Supplier::Joule { el } => lines.push(mk(id, Kind::Used { srv: Srv::ACS, car: Car::ELECTRICIDAD }, cv(el), "")),
                 Supplier::HeatPump { el, cop_x10, low_scop, split_env } => {
-                    lines.push(mk(id, Kind::Used { srv: Srv::ACS, car: Car::ELECTRICIDAD }, cv(el), ""));
+                    // the manual has both lines of a low-SCOP machine labelled: the label on the electricity line says
+                    // nothing about the electricity (it is non-renewable DHW electricity either way)
+                    let el_mark = *low_scop && (cop_x10 % 2 == 0);
+                    lines.push(mk(id, Kind::Used { srv: Srv::ACS, car: Car::ELECTRICIDAD }, cv(el), if el_mark { "BdC CTEEPBD_EXCLUYE_SCOP_ACS" } else { "" }));
                     let env_c: Vec<i64> = el.iter().map(|x| *x as i64 * (*cop_x10 as i64 - 10) / 10).collect();
                     let marked = |m: bool, alt: bool| if m { "BdC CTEEPBD_EXCLUYE_SCOP_ACS" } else if alt { "BdC" } else { "" };
                     match split_env {
